@@ -63,6 +63,10 @@ Definition write_matches (cl : call) (id : N) (x : option crec) : Prop :=
   | CDelete id' => id = id' /\ x = None
   | _ => False
   end.
+(* a write issued by the emergency drain inside an insert: the cold tier is "repaired" from a drained
+   mirror entry of SOME id (not the insert's own argument) *)
+Definition drain_repair (cl : call) (id : N) (x : option crec) : Prop :=
+  (exists i v m, cl = CInsert i v m) /\ exists rc, x = Some rc.
 Definition write_just (F : list lop) (cl : call) (r : result) : Prop :=
   match cl with
   | CInsert id v m => exists rc, In (LW id (Some rc)) F /\ c_vec rc = v /\ c_meta rc = meta_canon m
@@ -95,6 +99,7 @@ Qed.
 
 Section Proofs.
   Variable digest : vec -> dgst.
+  Variable hard : nat.
   Hypothesis digest_inj : forall a b : vec, digest a = digest b -> a = b.
 
   Notation rec_tok := (rec_tok digest).
@@ -124,6 +129,9 @@ Section Proofs.
         cl = CInsert id v m /\
         forall rc, c_vec rc = v -> c_meta rc = meta_canon m -> sound cl (LW id (Some rc) :: F) k
     | ColdDel id k => cl = CDelete id /\ forall b, sound cl (LW id None :: F) (k b)
+    | HotDrain k => forall o, sound cl F (k o)
+    | ColdRepair id _ _ k =>
+        (exists i v m, cl = CInsert i v m) /\ forall rc, sound cl (LW id (Some rc) :: F) k
     end.
 
   Lemma sound_mono : forall cl p F F', incl F F' -> sound cl F p -> sound cl F' p.
@@ -136,6 +144,8 @@ Section Proofs.
     - destruct HS as [E HS]. split; [exact E|]. intros rc E1 E2. eapply IHp; [|apply (HS rc E1 E2)].
       apply incl_cons; [left; reflexivity | apply incl_tl; exact HI].
     - destruct HS as [E HS]. split; [exact E|]. intros b. eapply H; [|apply HS].
+      apply incl_cons; [left; reflexivity | apply incl_tl; exact HI].
+    - destruct HS as [E HS]. split; [exact E|]. intros rc. eapply IHp; [|apply HS].
       apply incl_cons; [left; reflexivity | apply incl_tl; exact HI].
   Qed.
 
@@ -163,16 +173,18 @@ Section Proofs.
 
   Lemma step_writes : forall cl F s p s1 p1 ops l,
     sound cl F p -> step_prog s p = Some (s1, p1, ops, l) ->
-    forall id x, In (LW id x) ops -> write_matches cl id x.
+    forall id x, In (LW id x) ops -> write_matches cl id x \/ drain_repair cl id x.
   Proof.
     intros cl F s p s1 p1 ops l HS HSt id x Hin.
     destruct p; cbn [Conc05.step_prog] in HSt; inversion HSt; subst; clear HSt; cbn [In] in Hin;
       try contradiction; try (destruct Hin as [Hin|[]]; discriminate).
     - apply in_map_iff in Hin as (y & E & _). discriminate.
-    - destruct HS as [E _]. subst cl. destruct Hin as [Hin|[]]. inversion Hin; subst.
+    - destruct HS as [E _]. subst cl. destruct Hin as [Hin|[]]. inversion Hin; subst. left.
       cbn. split; [reflexivity|]. eexists. split; [reflexivity|]. split; reflexivity.
-    - destruct HS as [E _]. subst cl. destruct Hin as [Hin|[]]. inversion Hin; subst.
+    - destruct HS as [E _]. subst cl. destruct Hin as [Hin|[]]. inversion Hin; subst. left.
       cbn. split; reflexivity.
+    - destruct HS as [E _]. destruct Hin as [Hin|[]]. inversion Hin; subst. right.
+      split; [exact E|]. eexists. reflexivity.
   Qed.
 
   (* ----- the programs of the six calls are sound from the empty fact list ----- *)
@@ -372,12 +384,42 @@ Section Proofs.
              rewrite <- Ef. apply Hobs. exact Hin.
   Qed.
 
-  Lemma sound_insert : forall id v m, sound (CInsert id v m) [] (p_insert id v m).
+  Lemma sound_drain_loop : forall cl k docs F clear,
+    (exists i v m, cl = CInsert i v m) ->
+    (forall F' b, incl F F' -> sound cl F' (k b)) ->
+    sound cl F (drain_loop docs clear k).
   Proof.
-    intros id v m. unfold p_insert. cbn [sound]. intros _. split; [reflexivity|]. intros rc E1 E2 x.
-    assert (J : forall b, justified [LObs id x; LW id (Some rc)] (CInsert id v m) (RIns b)).
-    { intros b. repeat split; cbn; try (intros ? ? []). exists rc. split; [right; left; reflexivity|]. auto. }
-    destruct x as [r|]; cbn [option_map sound]; apply J.
+    intros cl k. induction docs as [|[id h] r IH]; intros F clear Hcl HK; cbn [drain_loop].
+    - apply HK. apply incl_refl.
+    - cbn [sound]. intros xe xm.
+      assert (HK' : forall F' b, incl (LObs id xm :: LObs id xe :: F) F' -> sound cl F' (k b)).
+      { intros F' b HI. apply HK. eapply incl_tran; [|exact HI]. apply incl_tl, incl_tl, incl_refl. }
+      destruct xe as [re|]; cbn [option_map].
+      + destruct xm as [rm|]; cbn [option_map].
+        * destruct (negb (vec_feqb (c_vec re) (h_vec h))); cbn [sound]; apply IH; auto.
+        * cbn [sound]. split; [exact Hcl|]. intros rc. apply IH; [exact Hcl|].
+          intros F' b HI. apply HK'. eapply incl_tran; [|exact HI]. apply incl_tl, incl_refl.
+      + destruct xm as [rm|]; cbn [option_map sound]; (split; [exact Hcl|]); intros rc; (apply IH; [exact Hcl|]);
+          intros F' b HI; apply HK'; (eapply incl_tran; [|exact HI]); apply incl_tl, incl_refl.
+  Qed.
+
+  Lemma sound_insert : forall id v m, sound (CInsert id v m) [] (p_insert hard id v m).
+  Proof.
+    intros id v m. unfold p_insert.
+    assert (Hbody : forall F, sound (CInsert id v m) F
+      (L1Inv id (Silent (cs LkIndex MRead) (Silent (cs LkIndex MRead) (ColdIns id v m
+        (Silent (cs LkQc MWrite) (Silent (cs LkQc MWrite) (ColdTok id (fun ot =>
+           match ot with
+           | Some t => HotIns id (mkH v (meta_canon m) t) (Ret (RIns true))
+           | None => Ret (RIns false)
+           end))))))))).
+    { intros F. cbn [sound]. split; [reflexivity|]. intros rc E1 E2 x.
+      assert (J : forall b, justified (LObs id x :: LW id (Some rc) :: F) (CInsert id v m) (RIns b)).
+      { intros b. repeat split; cbn; try (intros ? ? []). exists rc. split; [right; left; reflexivity|]. auto. }
+      destruct x as [r|]; cbn [option_map sound]; apply J. }
+    cbn [sound]. intros n. destruct (hard <=? n); [|apply Hbody].
+    cbn [sound]. intros docs. destruct docs as [|d r]; [apply Hbody|].
+    apply sound_drain_loop; [eauto|]. intros F' b _. destruct b; cbn [sound]; apply Hbody.
   Qed.
 
   Lemma sound_delete : forall id, sound (CDelete id) [] (p_delete id).
@@ -388,7 +430,7 @@ Section Proofs.
     destruct (b1 || b2); cbn [sound]; apply J.
   Qed.
 
-  Lemma sound_prog_of : forall cl, sound cl [] (prog_of digest cl).
+  Lemma sound_prog_of : forall cl, sound cl [] (prog_of digest hard cl).
   Proof.
     destruct cl; cbn [prog_of].
     - apply sound_query. - apply sound_getemb. - apply sound_getdoc.
@@ -603,12 +645,13 @@ Qed.
 
 Section Run.
   Variable digest : vec -> dgst.
+  Variable hard : nat.
   Hypothesis digest_inj : forall a b : vec, digest a = digest b -> a = b.
 
   Notation step_prog := (step_prog digest).
-  Notation run_thread := (run_thread digest).
-  Notation cstep := (cstep digest).
-  Notation crun := (crun digest).
+  Notation run_thread := (run_thread digest hard).
+  Notation cstep := (cstep digest hard).
+  Notation crun := (crun digest hard).
   Notation sound := (sound digest).
 
   Definition fops (c : cur) : list lop := map snd (c_facts c).
@@ -629,7 +672,7 @@ Section Run.
 
   Definition log_writes_ok (g : gstate) : Prop :=
     forall k id x, In (k, LW id x) (g_log g) ->
-      exists t c cl inv, In (HInv t c cl inv) (g_hist g) /\ inv <= k /\ write_matches cl id x.
+      exists t c cl inv, In (HInv t c cl inv) (g_hist g) /\ inv <= k /\ (write_matches cl id x \/ drain_repair cl id x).
 
   Definition op_agrees (cold : list (N * crec)) (o : lop) : Prop :=
     match o with LW id x | LObs id x => lookup id cold = x end.
@@ -677,6 +720,9 @@ Section Run.
     - (* ColdDel *)
       split; [intros o [<-|[]]; cbn [op_agrees]; rewrite lk_remove, N.eqb_refl; reflexivity|].
       split; [exact I|]. intros j. unfold reg_upd, reg_of. rewrite lk_remove, (N.eqb_sym id j). reflexivity.
+    - (* ColdRepair *)
+      split; [intros o [<-|[]]; cbn [op_agrees]; rewrite lk_put, N.eqb_refl; reflexivity|].
+      split; [exact I|]. intros j. unfold reg_upd, reg_of. rewrite lk_put, (N.eqb_sym id j). reflexivity.
   Qed.
 
   (* ----- monotonicity ----- *)
@@ -696,9 +742,9 @@ Section Run.
   Proof. intros. destruct p1; cbn [finish]; eauto. Qed.
 
   Lemma start_cases : forall ts t now c todo next hinv,
-    start digest ts t now = Some (c, todo, next, hinv) ->
+    start digest hard ts t now = Some (c, todo, next, hinv) ->
     (t_cur ts = Some c /\ hinv = []) \/
-    (t_cur ts = None /\ exists cl, c = mkCur (t_next ts) cl now [] (prog_of digest cl) /\
+    (t_cur ts = None /\ exists cl, c = mkCur (t_next ts) cl now [] (prog_of digest hard cl) /\
                                    hinv = [HInv t (t_next ts) cl now]).
   Proof.
     intros ts t now c todo next hinv H. unfold start in H. destruct (t_cur ts) as [c0|].
@@ -710,7 +756,7 @@ Section Run.
   Proof.
     intros cold0 g t g' HI H. unfold Conc05.run_thread in H.
     destruct (nth_error (g_thr g) t) as [ts|] eqn:Ets; [|discriminate].
-    destruct (start digest ts t (g_now g)) as [[[[c todo] next] hinv]|] eqn:Est; [|discriminate].
+    destruct (start digest hard ts t (g_now g)) as [[[[c todo] next] hinv]|] eqn:Est; [|discriminate].
     destruct (step_prog (g_sh g) (c_prog c)) as [[[[sh1 p1] ops] l]|] eqn:Esp; [|discriminate].
     inversion H; subst g'; clear H.
     set (now := g_now g) in *.
@@ -866,7 +912,7 @@ Section Run.
     intros g i g' H. destruct i as [t|id e|id h]; cbn [Conc05.cstep] in H.
     - unfold Conc05.run_thread in H.
       destruct (nth_error (g_thr g) t) as [ts|]; [|discriminate].
-      destruct (start digest ts t (g_now g)) as [[[[c todo] next] hinv]|]; [|discriminate].
+      destruct (start digest hard ts t (g_now g)) as [[[[c todo] next] hinv]|]; [|discriminate].
       destruct (step_prog (g_sh g) (c_prog c)) as [[[[sh1 p1] ops] l]|]; [|discriminate].
       inversion H; subst; cbn. split; [reflexivity|]. eexists. split; [reflexivity|].
       intros e He. apply in_stamp in He. tauto.
@@ -972,7 +1018,8 @@ Section Run.
           exists k x, In (k, LObs id x) L /\ inv <= k <= res /\ option_map c_meta x = Some m) /\
        call_linearised L cl inv res) /\
     (forall k id x, In (k, LW id x) L ->
-       exists t c cl inv, In (HInv t c cl inv) (g_hist g) /\ inv <= k /\ write_matches cl id x).
+       exists t c cl inv, In (HInv t c cl inv) (g_hist g) /\ inv <= k /\
+                          (write_matches cl id x \/ drain_repair cl id x)).
   Proof.
     intros sh0 threads sched g Hrun L.
     pose proof (inv_crun _ _ _ _ (inv_init sh0 threads) Hrun) as HI.
@@ -1000,16 +1047,23 @@ Section Run.
   Qed.
 
   (* ----- consequences spelled out ----- *)
+  (* every write that took effect was issued by an invoked insert/delete with exactly those arguments,
+     i.e. no emergency-drain repair write happened in this run *)
+  Definition client_writes_only (g : gstate) : Prop :=
+    forall k id x, In (k, LW id x) (chron (g_log g)) ->
+      exists t c cl inv, In (HInv t c cl inv) (g_hist g) /\ inv <= k /\ write_matches cl id x.
+
   (* never a vector that was not written: a returned vector is the initial canonical one or the
      argument of an invoked insert of that id *)
   Theorem read_value_written : forall sh0 threads sched g,
     crun (ginit sh0 threads) sched = Some g ->
+    client_writes_only g ->
     forall t c cl r inv res id v,
       In (HRes t c cl r inv res) (g_hist g) -> In (id, Some v) (vec_components r) ->
       (exists rc, lookup id (s_cold sh0) = Some rc /\ c_vec rc = v) \/
       (exists t' c' m inv', In (HInv t' c' (CInsert id v m) inv') (g_hist g)).
   Proof.
-    intros sh0 threads sched g Hrun t c cl r inv res id v Hres Hc.
+    intros sh0 threads sched g Hrun Hnorep t c cl r inv res id v Hres Hc.
     destruct (register_linearizable _ _ _ _ Hrun) as (HS & HA & _ & Hcalls & Hwr).
     destruct (Hcalls _ _ _ _ _ _ Hres) as (_ & Hv & _ & _).
     destruct (Hv _ _ Hc) as (k & x & Hin & Hk & Ex).
@@ -1019,7 +1073,7 @@ Section Run.
     destruct (reg_accepts_obs_src _ _ _ _ HA Hin') as [E|Hw].
     - left. exists rc. split; [symmetry; exact E | reflexivity].
     - right. apply in_map_iff in Hw as ([kw o] & Eo & Hw). cbn [snd] in Eo. subst o.
-      destruct (Hwr _ _ _ Hw) as (t' & c' & cl' & inv' & Hinv & _ & Hm).
+      destruct (Hnorep _ _ _ Hw) as (t' & c' & cl' & inv' & Hinv & _ & Hm).
       destruct cl'; cbn in Hm; try contradiction.
       + destruct Hm as (-> & r0 & E0 & E1 & _). inversion E0; subst r0.
         exists t', c', m, inv'. rewrite E1. exact Hinv.
@@ -1053,6 +1107,31 @@ Section Run.
     destruct HWent as (kW & xW & HinW & HkW & HmW).
     destruct (last_write_before _ _ _ _ _ _ _ HS HA Hin HinW) as (kw & Hinw & Hkw); [lia|].
     exists kW, xW, kw, x. repeat split; auto; lia.
+  Qed.
+
+  (* never a deleted document after its delete completed — in runs without a drain repair write: a
+     read that begins after a completed delete and still finds the document is explained by an INSERT
+     call of that id and vector whose write took effect after the delete's linearisation point *)
+  Theorem read_after_completed_delete : forall sh0 threads sched g,
+    crun (ginit sh0 threads) sched = Some g ->
+    client_writes_only g ->
+    forall tw cw rw invw resw t c cl r inv res id v,
+      In (HRes tw cw (CDelete id) rw invw resw) (g_hist g) ->
+      In (HRes t c cl r inv res) (g_hist g) -> In (id, Some v) (vec_components r) ->
+      resw < inv ->
+      exists kW kw t' c' m inv',
+        invw <= kW <= resw /\ kW <= kw <= res /\
+        In (HInv t' c' (CInsert id v m) inv') (g_hist g) /\ inv' <= kw.
+  Proof.
+    intros sh0 threads sched g Hrun Hcw tw cw rw invw resw t c cl r inv res id v HW HR Hc Hlt.
+    destruct (read_sees_completed_write _ _ _ _ Hrun _ _ _ _ _ _ _ _ _ _ _ _ id (Some v) HW (or_intror eq_refl) HR Hc Hlt)
+      as (kW & xW & kw & x & _ & HkW & _ & Hinw & Hkw & Ex).
+    destruct x as [rc|]; cbn in Ex; [|discriminate]. inversion Ex; subst v.
+    destruct (Hcw _ _ _ Hinw) as (t' & c' & cl' & inv' & Hinv & Hle & Hm).
+    destruct cl'; cbn in Hm; try contradiction.
+    - destruct Hm as (-> & r0 & E0 & E1 & _). inversion E0; subst r0.
+      exists kW, kw, t', c', m, inv'. rewrite E1. auto.
+    - destruct Hm as [_ Hm]. discriminate.
   Qed.
 
   (* the pairing clause holds for every read during which no write of that id took effect between its
